@@ -16,9 +16,11 @@
 //	    value as read through the struct; after the fold the referenced
 //	    objects must hold what they held ("input-mutated:<site>"); a change of
 //	    the struct's own fields with the referenced objects intact is counted
-//	    ("struct-updated-in-place", HEAD does it in ModifyRequest x
-//	    ModifyHeaders; every producer of the tree builds a new struct per
-//	    call) and is compared through the model in the struct-reuse sessions.
+//	    ("struct-updated-in-place"; until fix-F-C07c ModifyRequest x
+//	    ModifyHeaders did it; every producer of the tree builds a new struct
+//	    per call); its consequence is demanded in the struct-reuse sessions
+//	    (a later transaction of that producer must combine the producer's own
+//	    value) and compared with the value semantics of the model.
 //	(b) sessions (suites sess_req / sess_resp): producers with long-lived
 //	    objects, 2-4 transactions naming the producers that fire.
 //	    reuse = "maps":    every transaction builds new structs around the
@@ -338,11 +340,6 @@ func coqSession(k *Case) string {
 
 // ---------------------------------------------------------------- monitor
 
-func actOfHanded(r Res) Act {
-	return Act{Kind: r.Kind, Headers: r.Headers, Host: r.Host, Path: r.Path, Query: r.Query, Body: r.Body,
-		Remove: r.Remove, Status: r.Status}
-}
-
 // inplaceCell: dropping the no-ops, the sequence starts ModifyRequest,
 // ModifyHeaders (the one place where the code as it is assigns a field of a
 // struct it was handed).
@@ -358,10 +355,12 @@ func inplaceCell(acts []Act) bool {
 
 // monitorSession restates the property per transaction.  The actions of a
 // transaction are, by value, what its producers stood for when the session
-// started (reuse = maps: the producers only keep maps / lists and nothing may
-// write those) or what the struct handed in read just before the fold (reuse
-// = structs: whether a struct may be updated by the fold that owns it is not
-// fixed by the text; that is compared through the model, not demanded).
+// started, whether the producers keep maps / lists (reuse = maps) or whole
+// action structs (reuse = structs): a producer's action for this request is
+// what the producer built, not what an earlier fold left in it.  (Until
+// fix-F-C07c the code assigned the accumulated struct's HeadersToSet in
+// ModifyRequest x ModifyHeaders; under struct reuse the next transaction of
+// that producer then fails header-union / foreign-header here.)
 func monitorSession(o *c.Out, k *Case) []c.Hit {
 	side := sessSide(k)
 	var hits []c.Hit
@@ -369,11 +368,7 @@ func monitorSession(o *c.Out, k *Case) []c.Hit {
 		t := &k.Txns[ti]
 		acts := make([]Act, len(t.Ids))
 		for j, id := range t.Ids {
-			if k.Reuse == "structs" && j < len(t.Handed) {
-				acts[j] = actOfHanded(t.Handed[j])
-			} else {
-				acts[j] = k.Producers[id]
-			}
+			acts[j] = k.Producers[id]
 		}
 		pk := &Case{Side: side, Actions: acts, Vars: t.Vars}
 		h := &hitter{k: pk, rep: k, pre: fmt.Sprintf("transaction #%d of the session: ", ti)}
@@ -568,7 +563,13 @@ func randSession(r *c.Rng, side string) Case {
 			j := r.Intn(i + 1)
 			perm[i], perm[j] = perm[j], perm[i]
 		}
-		k.Txns = append(k.Txns, Txn{Ids: perm[:r.Range(1, np)]})
+		ids := append([]int(nil), perm[:r.Range(1, np)]...)
+		if r.Chance(1, 5) {
+			// a producer firing twice in one transaction (the same struct twice in
+			// one sequence under reuse = structs)
+			ids = insertAt(ids, r.Intn(len(ids)+1), ids[r.Intn(len(ids))])
+		}
+		k.Txns = append(k.Txns, Txn{Ids: ids})
 	}
 	return k
 }
@@ -576,18 +577,6 @@ func randSession(r *c.Rng, side string) Case {
 // ---------------------------------------------------------------- run
 
 func runSession(o *c.Out, k Case) {
-	if k.Reuse == "structs" {
-		// the same struct twice in one sequence is not modelled
-		for _, t := range k.Txns {
-			seen := map[int]bool{}
-			for _, id := range t.Ids {
-				if seen[id] && k.Producers[id].Kind != kNoop {
-					panic("struct-reuse session names a producer twice in one transaction")
-				}
-				seen[id] = true
-			}
-		}
-	}
 	execSession(&k)
 	// non-trivial: some producer that carries headers fires in two transactions
 	// and some transaction combines two actions that are not no-ops
